@@ -120,7 +120,7 @@ func C03(c *Ctx) {
 		"(typestate) every store of an order whose Status is a constant is one of: Raised on a fresh order; Rejected under Status==Raised and [elapsed>=DecisionTimeLimit ∧ accepts<MinAccepts] or [rejects > len(signers)-MinAccepts]; Accepted under Status==Raised ∧ accepts>=MinAccepts ∧ ¬(rejects>threshold); Completed under Status==Accepted; any other writer must copy Status from the loaded order (or be genesis import); " +
 		"(A3) in the begin blocker no path runs the minting step after the tally step (one-block delay); inside the completion loop every iteration that stores Completed also mints and dequeues the same id, and every tally outcome dequeues from the raised queue (accept also enqueues in the accepted queue) before the next iteration. " +
 		"Decides these structural necessary conditions on every path; does not decide queue/status consistency as an inductive invariant over histories."
-	r.Rules = []string{"A1.section-writers", "A2.whitelist-action", "A2.raise-guards", "A7.raise-fields", "A2.decide-guards", "A2.decide-once-loop", "A7.decision-signer-form", "A4.decide-fields", "TS.status-transition", "A3.one-block-delay", "A3.completion-pairing", "A3.tally-pairing", "A3.queue-membership", "A3.no-stale-writeback", "A3.lost-update", "A3.stale-element-pointer", "A3.element-carry", "A3.tally-complete", "A7.derived-queues", "A7.import-fields", "A7.validate-fields", "A7.validate-rule", "A7.validate-cross-field"}
+	r.Rules = []string{"A1.section-writers", "A2.whitelist-action", "A2.raise-guards", "A7.raise-fields", "A2.decide-guards", "A2.decide-once-loop", "A7.decision-signer-form", "A4.decide-fields", "TS.status-transition", "A3.one-block-delay", "A3.completion-pairing", "A3.tally-pairing", "A3.queue-membership", "A3.no-stale-writeback", "A3.lost-update", "A3.stale-element-pointer", "A3.element-carry", "A3.tally-complete", "A7.derived-queues", "A7.import-fields", "A7.validate-fields", "A7.validate-rule", "A7.validate-cross-field", "A6.entitlement-from-state"}
 	r.Trusted = []string{"bank MintCoins semantics", "params are read from the store at every use (C16)"}
 	r.NotDecided = []string{"consistency of queues and statuses over all histories (inductive)", "behaviour of uint64 subtraction now-RaiseTime when block time goes backwards"}
 
@@ -156,6 +156,9 @@ func C03(c *Ctx) {
 		nsw += staleRewrite(c, "A3.no-stale-writeback", c.W.Roots["BEGIN:enterprise"], sec)
 	}
 	r.Floor("locked-counter write occurrences of the completion step judged for re-reads", nsw, 2)
+	// "approved by the quorum of authorised signers": who is authorised is read from committed state at every decision, never
+	// from a copy a discarded branch (failed proposal, simulation, CheckTx) may have left in a module object
+	entitlementFromState(c)
 }
 
 func raiseRules(c *Ctx) {
